@@ -174,6 +174,13 @@ def check(ctx):
     for name, src, lang in [x for x in c03.base_programs(True) if x[2] == "CPP"]:
         for j, cls, vsrc, n in c03.variants(src, lang, "line", 4):
             G((name + "+line/" + j, vsrc, {"ctx": "line-comment-holes"}), lang, "defaults", {}, nl_family, None, 1)
+    # (e) skeletons of all nine languages (the languages without an independent lexer are judged by uncrustify's own raw tokeniser)
+    from ..universe import skel
+    for name, lang, src in skel.all_skeletons():
+        pr = ("skel:" + name, src, {"ctx": "skel", "self": lang not in oracles.INDEP_LANGS})
+        G(pr, lang, "defaults", {}, ws_family if (not quick or lang not in ("C", "CPP")) else sp_family, None, 1)
+        for bn, b in sp_bases.items():
+            G(pr, lang, bn, b, None, None, 0)
     # profiles (whitespace projection) on everything small
     for pn, p in P.items():
         if pn == "defaults":
